@@ -9,7 +9,7 @@ use std::sync::atomic::{AtomicU64, Ordering};
 use std::time::{Duration, Instant};
 use vkit::{bad, ok, ok_trivial, Run, Verdict};
 
-const DEADLINE_S: f64 = 2.0;
+const DEADLINE_S: f64 = 20.0; // generous: a loaded machine may deschedule us for seconds; a real hang never returns
 const BACKOFF_MS: u64 = 30;
 
 #[derive(Serialize, Deserialize, Hash, Clone, Debug)]
@@ -75,7 +75,7 @@ pub fn run(run: &'static Run) {
     let fxr = &fx;
     run.sub_with(
         "contention",
-        vkit::Opts::default().chunk(run.pick(512, 2048)).watchdog(DEADLINE_S).isolate(),
+        vkit::Opts::default().chunk(run.pick(512, 2048)).watchdog(DEADLINE_S + 10.0).isolate(),
         |emit| {
             for tx in &alphabet {
                 for state in 0..fxr.initial.len() as u8 {
